@@ -86,7 +86,7 @@ def download(client_kind, maxlen):
             n2 = n if d.bool("same-bytes") else (n + 1) % (maxlen + 1)
             payload = FILLER[:n2]
             n = n2
-            fmt = fmt + ".2"
+            fmt = ".second"      # concrete: concatenating onto the unbounded symbolic format multiplied the paths by 12
             try:
                 drv.main.img.blb.value = values.BLOB(payload, fmt)
             except Exception:
